@@ -12,6 +12,7 @@ mod p_c11;
 mod p_c12;
 mod p_c15;
 mod p_c16;
+mod p_c17;
 mod p_c18;
 mod p_c06;
 mod p_c19;
@@ -52,6 +53,18 @@ pub fn consts() -> Consts {
         max_buffer_len: get("maxBufferLen", 65536),
         connect_body_cap: get("connectBodyCap", 10240),
     }
+}
+
+pub fn consts_race_delay() -> u64 {
+    let raw = std::env::var("ATTO_CONSTS").unwrap_or_default();
+    let pat = "\"raceDelayMs\":";
+    raw.find(pat)
+        .and_then(|i| {
+            let rest = raw[i + pat.len()..].trim_start();
+            let end = rest.find(|c: char| !c.is_ascii_digit()).unwrap_or(rest.len());
+            rest[..end].parse().ok()
+        })
+        .unwrap_or(200)
 }
 
 fn main() {
@@ -95,6 +108,7 @@ fn main() {
                 "C15" => p_c15::generate(seed, tier, &mut sink),
                 "C16" => p_c16::generate(seed, tier, &mut sink),
                 "C18" => p_c18::generate(seed, tier, &mut sink),
+                "C17" => p_c17::generate(seed, tier, &mut sink),
                 "C06" => p_c06::generate(seed, tier, &mut sink),
                 "C19" => p_c19::generate(seed, tier, &mut sink),
                 _ => {
